@@ -115,6 +115,25 @@ func schedCase(id int, dir string, c *Case, args []string, run *Run) {
 		runs++
 	}
 
+	// Builder history: ToTables -> Add more -> ToTables must equal a fresh Builder fed everything
+	// (cells' slices are sorted in place by NewSample and shared with the earlier Tables), and the
+	// earlier Tables must still render as before
+	incr := 1
+	if n := len(run.stream); n >= 2 {
+		for _, at := range []int{n / 2, 1, n - 1} {
+			midAt = at
+			r2 := runPipelineStdin(defaultsUsed, args)
+			midAt = -1
+			if r2.Err != "" || !bytes.Equal(r2.text, run.text) || !bytes.Equal(r2.csv, run.csv) || !bytes.Equal(r2.errCSV, run.errCSV) {
+				incr = 0
+				detail = fmt.Sprintf("incremental: ToTables after %d of %d results, then the rest: final output differs from the fresh run", at, n)
+			} else if !r2.midSame {
+				incr = 0
+				detail = fmt.Sprintf("incremental: the Tables made after %d of %d results render differently after the Builder was extended", at, n)
+			}
+		}
+	}
+
 	// line permutation inside configuration blocks
 	perm := 1
 	if plainBin != "" {
@@ -141,9 +160,9 @@ func schedCase(id int, dir string, c *Case, args []string, run *Run) {
 		bin = "skip"
 	}
 	if detail != "" {
-		hx.Printf("sobs %d same=%d race=%d perm=%d hist=%d bin=%s detail=%s\n", id, same, race, perm, hist, bin, strings.ReplaceAll(detail, " ", "_"))
+		hx.Printf("sobs %d same=%d race=%d perm=%d hist=%d incr=%d bin=%s detail=%s\n", id, same, race, perm, hist, incr, bin, strings.ReplaceAll(detail, " ", "_"))
 	} else {
-		hx.Printf("sobs %d same=%d race=%d perm=%d hist=%d bin=%s\n", id, same, race, perm, hist, bin)
+		hx.Printf("sobs %d same=%d race=%d perm=%d hist=%d incr=%d bin=%s\n", id, same, race, perm, hist, incr, bin)
 	}
 	if crashed != "" {
 		hx.Printf("crash %d %s\n", id, crashed)
